@@ -10,9 +10,9 @@ import (
 
 	apiv1 "k8s.io/api/core/v1"
 	apierrors "k8s.io/apimachinery/pkg/api/errors"
-	"k8s.io/apimachinery/pkg/runtime/schema"
 	"k8s.io/apimachinery/pkg/api/resource"
 	metav1 "k8s.io/apimachinery/pkg/apis/meta/v1"
+	"k8s.io/apimachinery/pkg/runtime/schema"
 	"k8s.io/client-go/kubernetes"
 	corev1 "k8s.io/client-go/kubernetes/typed/core/v1"
 )
@@ -37,16 +37,19 @@ type c15Core struct {
 func (c *c15Core) Nodes() corev1.NodeInterface { return &c15Nodes{s: c.s} }
 
 type c15Store struct {
-	latest   *apiv1.Node // what the API server holds
-	failGet  bool
-	failPut  bool
-	nilGet   bool
-	puts     []*apiv1.Node
-	gets     int
+	latest  *apiv1.Node // what the API server holds
+	failGet bool
+	failPut bool
+	nilGet  bool
+	puts    []*apiv1.Node
+	gets    int
 	// conflict: another writer updates the node between our read and our first write (it adds
 	// a taint and an annotation); that write is rejected with 409 Conflict, later ones are applied
 	conflict bool
-	applied  int
+	// dropFirst: the concurrent writer also removes the node's first taint (when that is not escalator's)
+	dropFirst bool
+	dropped   bool
+	applied   int
 }
 
 type c15Nodes struct {
@@ -78,6 +81,10 @@ func (n *c15Nodes) Update(ctx context.Context, node *apiv1.Node, opts metav1.Upd
 	}
 	if n.s.conflict && len(n.s.puts) == 1 {
 		cur := c15Copy(n.s.latest)
+		if n.s.dropFirst && len(cur.Spec.Taints) > 0 && cur.Spec.Taints[0].Key != ToBeRemovedByAutoscalerKey {
+			cur.Spec.Taints = cur.Spec.Taints[1:] // e.g. the node lifecycle controller lifts not-ready
+			n.s.dropped = true
+		}
 		cur.Spec.Taints = append(cur.Spec.Taints, apiv1.Taint{Key: "node.kubernetes.io/unreachable", Effect: apiv1.TaintEffectNoExecute})
 		ann := map[string]string{"heartbeat": "2"}
 		for k, v := range cur.Annotations {
@@ -275,6 +282,7 @@ func VerifHarness_C15_delete() {
 	}
 	if escAt >= 0 && verifChoice("conflict", 2) == 1 && !store.failGet && !store.failPut && !store.nilGet {
 		store.conflict = true
+		store.dropFirst = verifChoice("concurrentRemoval", 2) == 1
 	}
 	stale := c15Node(foreign, 0, "1400000000")
 	_, err := DeleteToBeRemovedTaint(stale, &c15Kube{s: store})
@@ -290,7 +298,7 @@ func VerifHarness_C15_delete() {
 		}
 		var want []apiv1.Taint
 		for k, t := range server.Spec.Taints {
-			if k != escAt {
+			if k != escAt && !(store.dropped && k == 0) {
 				want = append(want, t)
 			}
 		}
@@ -298,6 +306,13 @@ func VerifHarness_C15_delete() {
 		verifAssert("C15.conflict-keeps-concurrent-taints", sameTaintMultiset(foreignNow, want))
 		verifAssert("C15.conflict-keeps-concurrent-annotation", final.Annotations["heartbeat"] == "2")
 		verifAssert("C15.conflict-reported-or-resolved", err != nil || store.applied > 0)
+		if err == nil {
+			_, still := GetToBeRemovedTaint(final)
+			verifAssert("C15.success-means-the-taint-is-gone", !still)
+		}
+		if store.dropped {
+			verifReach("C15.conflict-shifted-taint-positions")
+		}
 		verifReach("C15.conflict")
 		return
 	}
